@@ -1016,7 +1016,7 @@ func (c *Compiler) compileCall(node *ast.Call) error {
 		return err
 	}
 	for _, arg := range args {
-		if err := c.compile(arg); err != nil {
+		if err := c.compileArgument(arg); err != nil {
 			c.current.pipeActive = isPipeStage
 			return err
 		}
@@ -1051,7 +1051,7 @@ func (c *Compiler) compileObjectCall(node *ast.ObjectCall) error {
 		return fmt.Errorf("compile error: max args limit of %d exceeded (got %d)", MaxArgs, argc)
 	}
 	for _, arg := range args {
-		if err := c.compile(arg); err != nil {
+		if err := c.compileArgument(arg); err != nil {
 			return err
 		}
 	}
@@ -2048,6 +2048,17 @@ func (c *Compiler) compileDeferStmt(node *ast.Defer) error {
 	return nil
 }
 
+// compileArgument compiles one argument of a call. The parser accepts any
+// node in an argument list, but only an expression leaves the value that the
+// call consumes: a statement such as "x = 1" would make the call pop a value
+// that was never pushed.
+func (c *Compiler) compileArgument(arg ast.Node) error {
+	if _, ok := arg.(ast.Expression); !ok {
+		return c.formatError("call argument is not an expression", arg.Token().StartPosition)
+	}
+	return c.compile(arg)
+}
+
 func (c *Compiler) compilePartial(call *ast.Call) error {
 	args := call.Arguments()
 	argc := len(args)
@@ -2058,7 +2069,7 @@ func (c *Compiler) compilePartial(call *ast.Call) error {
 		return err
 	}
 	for _, arg := range args {
-		if err := c.compile(arg); err != nil {
+		if err := c.compileArgument(arg); err != nil {
 			return err
 		}
 	}
@@ -2083,7 +2094,7 @@ func (c *Compiler) compilePartialObjectCall(node *ast.ObjectCall) error {
 		return fmt.Errorf("compile error: max args limit of %d exceeded (got %d)", MaxArgs, argc)
 	}
 	for _, arg := range args {
-		if err := c.compile(arg); err != nil {
+		if err := c.compileArgument(arg); err != nil {
 			return err
 		}
 	}
